@@ -61,9 +61,8 @@ LookupOkay(e) ==
         /\ e.calls = r.calls
   /\ (TextJudged(e) /\ e.host \in DOMAIN msgs) => msgs[e.host] = e.msg
 LookupStep(e) ==
-  /\ last' = [set |-> TRUE, host |-> e.host, res |-> Lookup(cfg, e.host)]
   /\ msgs' = IF TextJudged(e) THEN (e.host :> e.msg) @@ msgs ELSE msgs
-  /\ UNCHANGED <<cfg, loaded, tbl>>
+  /\ UNCHANGED <<cfg, loaded, tbl, last>>
 
 \* a panic, or anything else the specification has no step for, is never allowed
 Okay(e) == CASE e.op = "load" -> LoadOkay(e)
